@@ -18,6 +18,10 @@ theorem u8_eq_lit (x : UInt8) (n : Nat) (hn : n < 256) : (x == UInt8.ofNat n) = 
 theorem u8_eq_1 (x : UInt8) : (x == (1 : UInt8)) = decide (x.toNat = 1) := u8_eq_lit x 1 (by decide)
 theorem u8_eq_2 (x : UInt8) : (x == (2 : UInt8)) = decide (x.toNat = 2) := u8_eq_lit x 2 (by decide)
 
+theorem u8_beq (x k : UInt8) : (x == k) = decide (x.toNat = k.toNat) := by
+  rw [Bool.eq_iff_iff]; simp only [beq_iff_eq, decide_eq_true_eq]
+  exact UInt8.toNat_inj.symm
+
 theorem u16_beq (x k : UInt16) : (x == k) = decide (x.toNat = k.toNat) := by
   rw [Bool.eq_iff_iff]; simp only [beq_iff_eq, decide_eq_true_eq]
   exact UInt16.toNat_inj.symm
